@@ -99,13 +99,13 @@ func c53(c *Ctx) {
 	}
 	// the tests and their operands
 	contains := Calls("(*net.IPNet).Contains").ArgIs(1, "AsSlice(ParseAddr($0)#0)").Where("receiver from bypassNetworks", func(in ssa.Instruction) bool {
-		return strings.HasPrefix(Term(in.(*ssa.Call).Call.Args[0]), "$r.bypassNetworks[")
+		return strings.HasPrefix(Term(BaselineArgs(&in.(*ssa.Call).Call)[0]), "$r.bypassNetworks[")
 	})
 	equal := Calls("(net.IP).Equal").ArgIs(1, "AsSlice(ParseAddr($0)#0)").Where("receiver from bypassIPs", func(in ssa.Instruction) bool {
-		return strings.HasPrefix(Term(in.(*ssa.Call).Call.Args[0]), "$r.bypassIPs[")
+		return strings.HasPrefix(Term(BaselineArgs(&in.(*ssa.Call).Call)[0]), "$r.bypassIPs[")
 	})
 	suffix := Calls("strings.HasSuffix").ArgIs(0, "$0").Where("suffix from bypassZones", func(in ssa.Instruction) bool {
-		return strings.HasPrefix(Term(in.(*ssa.Call).Call.Args[1]), "$r.bypassZones[")
+		return strings.HasPrefix(Term(BaselineArgs(&in.(*ssa.Call).Call)[1]), "$r.bypassZones[")
 	})
 	c.Count(dfr, contains, 1, 1)
 	c.Count(dfr, equal, 1, 1)
@@ -232,16 +232,16 @@ func c53(c *Ctx) {
 			return nil, false
 		}
 		cl, ok := sts[0].(*ssa.Store).Val.(*ssa.Call)
-		if !ok || CalleeName(&cl.Call) != "builtin:append" || len(cl.Call.Args) != 2 {
+		if !ok || CalleeName(&cl.Call) != "builtin:append" || len(BaselineArgs(&cl.Call)) != 2 {
 			return nil, false
 		}
-		if !strings.HasPrefix(Term(cl.Call.Args[0]), "$r."+field[strings.LastIndex(field, ".")+1:]) {
+		if !strings.HasPrefix(Term(BaselineArgs(&cl.Call)[0]), "$r."+field[strings.LastIndex(field, ".")+1:]) {
 			return nil, false
 		}
 		// the single element of the variadic slice
 		var elem ssa.Value
 		n := 0
-		Backward(cl.Call.Args[1], func(v ssa.Value) bool {
+		Backward(BaselineArgs(&cl.Call)[1], func(v ssa.Value) bool {
 			if a, ok := v.(*ssa.Alloc); ok {
 				for _, r := range *a.Referrers() {
 					if ia, ok := r.(*ssa.IndexAddr); ok {
